@@ -26,6 +26,8 @@ impl Queue {
     pub(crate) fn send(&self, sig: &Signal) {
         let sender = self.sender.clone();
         let sig = sig.clone();
+        #[cfg(feature = "verif")]
+        crate::verif::inc();
         Handle::current().spawn(async move { sender.send(sig).await });
     }
 
